@@ -45,6 +45,43 @@ func runC19(c *Ctx) {
 		call, ok := isBuiltinCall(i, "delete")
 		return ok && strings.Contains(norm(call.Call.Args[0]), "icmpTable.table")
 	}
+	// who may remove a waiter: the reply handler (its own id) and the ping that registered it (its own id). Any other
+	// removal - a sweep over the table, a different key - takes away a waiter whose reply may still arrive: that ping
+	// then reports a timeout although its reply is parsed in time.
+	r.Rule("who-removes", "a waiter entry is removed only by echoNotify(id) and by the ping that registered that id", 3)
+	for _, fn := range fns {
+		core.EachInstr(fn, func(i ssa.Instruction) {
+			if !isTableDelete(i) {
+				return
+			}
+			call, _ := isBuiltinCall(i, "delete")
+			key := call.Call.Args[1]
+			st := core.Violated
+			why := "removal of waiter entries in " + core.FuncName(fn) + " with key " + norm(key)
+			switch {
+			case fn.Name() == "echoNotify" && len(fn.Params) == 1 && key == ssa.Value(fn.Params[0]):
+				st = core.Proved
+			case fn.Name() == "ping" || fn.Name() == "Ping6":
+				// the key is the id this call registered: the same value used in its MapUpdate
+				core.EachInstr(fn, func(j ssa.Instruction) {
+					if mu, ok := j.(*ssa.MapUpdate); ok && strings.Contains(norm(mu.Map), "icmpTable.table") && mu.Key == key {
+						st = core.Proved
+					}
+				})
+			}
+			// a removal inside a loop over the table is a sweep
+			if st == core.Proved {
+				for _, l := range core.CFG(fn).Loops() {
+					if l.Blocks[i.Block()] {
+						st = core.Violated
+						why = "waiter entries are removed in a loop in " + core.FuncName(fn)
+					}
+				}
+			}
+			r.Add(core.Obligation{Rule: "who-removes", Key: "who-removes " + core.FuncName(fn) + " delete(icmpTable.table, " + norm(key) + ")", Func: core.FuncName(fn), Pos: c.P.Pos(core.PosOf(i)), Status: st,
+				Basis: "the key is the id of this reply / of this ping's own registration", Detail: why + ": a pending ping can lose its waiter before its reply arrives and report a timeout for a reply that was received"})
+		})
+	}
 	for _, fn := range pingFns {
 		if fn == nil {
 			continue
